@@ -137,9 +137,11 @@ struct start_reduce : public task {
     }
     static void run(const Range& range, Body& body, Partitioner& partitioner, task_group_context& context) {
         if ( !range.empty() ) {
-            wait_node wn;
             small_object_allocator alloc{};
             auto reduce_task = alloc.new_object<start_reduce>(range, body, partitioner, alloc);
+
+            // defer creation of the wait node until task allocation succeeds
+            wait_node wn;
             reduce_task->my_parent = &wn;
             execute_and_wait(*reduce_task, context, wn.m_wait, context);
         }
@@ -284,10 +286,12 @@ struct start_deterministic_reduce : public task {
         my_allocator(alloc) {}
     static void run(const Range& range, Body& body, Partitioner& partitioner, task_group_context& context) {
         if ( !range.empty() ) {
-            wait_node wn;
             small_object_allocator alloc{};
             auto deterministic_reduce_task =
                 alloc.new_object<start_deterministic_reduce>(range, partitioner, body, alloc);
+
+            // defer creation of the wait node until task allocation succeeds
+            wait_node wn;
             deterministic_reduce_task->my_parent = &wn;
             execute_and_wait(*deterministic_reduce_task, context, wn.m_wait, context);
         }
